@@ -708,7 +708,7 @@ class Lowerer:
         finally:
             self.cur, self.local_alias = saved
         info['loops'] = ctx['loop_ix']
-        nl = len(spec.get('loops', {}))
+        nl = len(spec.get('loops') or {})
         if spec.get('loops') is not None and nl and nl != ctx['loop_ix'] and not spec.get('loops_partial'):
             raise LowerError('%s: spec has %d loop contracts, function has %d loops' % (cname, nl, ctx['loop_ix']))
         h = hashlib.sha256(json.dumps(self.strip_ids(body), sort_keys=True).encode()).hexdigest()[:16]
